@@ -514,6 +514,44 @@ design(
 )
 
 design(
+    "explicit_sensitivity",
+    # a core sequential context that names its sensitivity list itself, in TWO calls (the second adds several signals)
+    """
+    def architecture(self):
+        en = Signal[Bit](False, name="en")
+        ld = Signal[Bit](False, name="ld")
+        sel = Signal[Bit](False, name="sel")
+        inc = Signal[Bit](False, name="inc")
+        clr = Signal[Bit](False, name="clr")
+        hold = Signal[Bit](False, name="hold")
+
+        @cohdl.sequential_context
+        def proc():
+            cohdl.sensitivity.list(self.clk, self.rst)
+            cohdl.sensitivity.list(en, ld, sel, inc, clr, hold)
+            if self.rst:
+                self.w <<= 0
+            elif cohdl.rising_edge(self.clk):
+                #@CTX
+                if (en & ld) | sel:
+                    self.w <<= self.v
+                elif inc & ~hold:
+                    self.w <<= self.w + 1
+                elif clr:
+                    self.w <<= 0
+
+        @std.concurrent
+        def enables():
+            en.next = self.a
+            ld.next = self.b
+            sel.next = self.a & self.b
+            inc.next = self.a ^ self.b
+            clr.next = ~self.a
+            hold.next = ~self.b
+""",
+)
+
+design(
     "current_ctx_outside",
     # a concurrent context, converted FIRST, uses a delayed flag: std consults SequentialContext.current() there and
     # finds none; the LAST converted context is a coroutine of a std.sequential context
